@@ -42,7 +42,7 @@ MainsLate == {<<>>, <<P, P, Ca(2)>>, <<P, P, Re(2)>>, <<P, Cl>>}
 MainsLife == {<<>>, <<Cl>>, <<P, Cl>>, <<P, Ca(1)>>, <<P, Re(1)>>}
 
 (* ---- configurations ---------------------------------------------------------------------------------------------- *)
-ProgQuick ==
+ProgQuick(u) ==
      Fam(AlphaChan,  <<1, 2, 2>>, 3, NoMain)                  \* all scripts over yield / send / receive
   \o Fam(AlphaSem,   <<1, 2, 2>>, 3, NoMain)
   \o Fam(AlphaBcast, <<2, 1, 1>>, 3, NoMain)
@@ -52,29 +52,36 @@ ProgQuick ==
   \o Fam(AlphaMutex, <<3, 1, 1>>, 3, MainsLate)
   \o Fam(AlphaLife,  <<2, 1, 0>>, 1, MainsLife)
 
-ProgT1 == Fam(AlphaChan, <<3, 3, 3>>, 3, NoMain)
-ProgT2 == Fam(AlphaMutex, <<3, 3, 3>>, 3, NoMain)
-ProgT3 == Fam(AlphaSem, <<3, 3, 3>>, 3, NoMain)
-ProgT4 == Fam(AlphaChan, <<2, 2, 2>>, 3, MainsUpTo(MainFirst, 2)) \o Fam(AlphaSem, <<2, 2, 2>>, 3, MainsUpTo(MainFirst, 2))
-ProgT5 == Fam(AlphaMutex, <<3, 2, 1>>, 3, MainsUpTo(MainSecond, 3)) \o Fam(AlphaMutex, <<6, 2, 0>>, 2, MainsUpTo(MainSecond, 1))
-ProgT6 == Fam(AlphaBcast, <<2, 2, 2>>, 3, MainsUpTo(MainFirst, 2)) \o Fam(AlphaCond, <<3, 3, 0>>, 2, MainsUpTo(MainFirst, 1))
-ProgT7 == Fam(AlphaJoin, <<2, 2, 2>>, 2, MainsUpTo(MainFull, 2)) \o Fam(AlphaLife, <<3, 3, 0>>, 1, MainsUpTo(MainFirst, 2))
-ProgT8 == Fam(AlphaMixed, <<2, 2, 1>>, 3, MainsUpTo(MainFirst, 1))
+ProgT1(u) == Fam(AlphaChan, <<3, 3, 3>>, 3, NoMain)
+ProgT2(u) == Fam(AlphaMutex, <<3, 3, 3>>, 3, NoMain)
+ProgT3(u) == Fam(AlphaSem, <<3, 3, 3>>, 3, NoMain)
+ProgT4(u) == Fam(AlphaChan, <<2, 2, 2>>, 3, MainsUpTo(MainFirst, 2)) \o Fam(AlphaSem, <<2, 2, 2>>, 3, MainsUpTo(MainFirst, 2))
+ProgT5(u) == Fam(AlphaMutex, <<3, 2, 1>>, 3, MainsUpTo(MainSecond, 3)) \o Fam(AlphaMutex, <<6, 2, 0>>, 2, MainsUpTo(MainSecond, 1))
+ProgT6(u) == Fam(AlphaBcast, <<2, 2, 2>>, 3, MainsUpTo(MainFirst, 2)) \o Fam(AlphaCond, <<3, 3, 0>>, 2, MainsUpTo(MainFirst, 1))
+ProgT7(u) == Fam(AlphaJoin, <<2, 2, 2>>, 2, MainsUpTo(MainFull, 2)) \o Fam(AlphaLife, <<3, 3, 0>>, 1, MainsUpTo(MainFirst, 2))
+ProgT8(u) == Fam(AlphaMixed, <<2, 2, 1>>, 3, MainsUpTo(MainFirst, 1))
 \* semaphores that start at 1, conditions with "any" logic
-ProgT9 == Fam(AlphaSem, <<2, 2, 2>>, 3, MainsUpTo(MainFirst, 1)) \o Fam(AlphaCond, <<3, 3, 0>>, 2, MainsUpTo(MainFirst, 1))
+ProgT9(u) == Fam(AlphaSem, <<2, 2, 2>>, 3, MainsUpTo(MainFirst, 1)) \o Fam(AlphaCond, <<3, 3, 0>>, 2, MainsUpTo(MainFirst, 1))
 
 \* as-found wake-up discipline: "two waiters + two back-to-back sends / releases", "a holder that re-locks before the
 \* woken waiter runs" (the waiter is woken by the first unlock, finds the mutex held again, waits without being
 \* registered and is not woken by the second unlock)
 Lk == Op("Lock", 1, 0)
 Ul == Op("Unlock", 1, 0)
-ProgRelock == Fam({Lk}, <<0, 1, 0>>, 0, NoMain) \o
+ProgRelock(u) == Fam({Lk}, <<0, 1, 0>>, 0, NoMain) \o
               << [scripts |-> << <<Lk, Y, Ul, Lk, Y, Ul>>, <<Lk>>, <<>> >>, main |-> WithTail(<<Op("Create", 1, 1), Op("Create", 2, 1)>>)] >>
-ProgAsFoundChan == Fam(AlphaChan, <<1, 1, 2>>, 3, NoMain)
-ProgAsFoundSem == Fam(AlphaSem, <<1, 1, 2>>, 3, NoMain)
-ProgAsFoundWake == ProgRelock \o ProgAsFoundSem
+ProgAsFoundChan(u) == Fam(AlphaChan, <<1, 1, 2>>, 3, NoMain)
+ProgAsFoundSem(u) == Fam(AlphaSem, <<1, 1, 2>>, 3, NoMain)
+ProgAsFoundWake(u) == ProgRelock(u) \o ProgAsFoundSem(u)
 \* as-found cleanup(): a routine created while cleanup() runs is started un-cancelled; cleanup() spins when it blocks
-ProgAsFoundCleanup == Fam(AlphaSpin, <<2, 1, 0>>, 1, NoMain)
+ProgAsFoundCleanup(u) == Fam(AlphaSpin, <<2, 1, 0>>, 1, NoMain)
+
+\* TLC evaluates every constant-level definition without parameters at start-up; the program sequences therefore take a
+\* dummy parameter and the configuration selects ONE of them by name (Programs <- ProgSel)
+CONSTANT Which
+SSx(r) == SeqsUpTo(AlphaChan, <<1,1,2>>[r])
+FamX(alpha) == SetToSeq({[scripts |-> <<a, b, c>>, main |-> WithTail(<<Op("Create", 1, 1), Op("Create", 2, 1), Op("Create", 3, 1)>>)] : a \in SeqsUpTo(alpha, 1), b \in SeqsUpTo(alpha, 1), c \in SeqsUpTo(alpha, 2)})
+ProgSel == FamX(AlphaChan)
 
 Zeros == [i \in PP |-> 0]
 Ones == [i \in PP |-> 1]
